@@ -256,7 +256,7 @@ harnesses! { REG_EQ, "C11", "c11";
       func: "PartialEq for RgbHue -> AngleEq::angle_eq [hues.rs, angle.rs]",
       desc: "E1 for all pairs (a, b = a + 360n exactly representable) in the stated range: the hues compare equal" }
     fn eq_small(g) { equality_whole_turns::<RgbHue<f32>, G>(g, 2048.0, 6) }
-    { id: "equality_whole_turns.RgbHue", tier: thorough, label: "complete",
+    { id: "equality_whole_turns.RgbHue", tier: unreached, label: "complete",
       func: "PartialEq for RgbHue -> AngleEq::angle_eq [hues.rs, angle.rs]",
       desc: "E1 for all pairs (a, b = a + 360n exactly representable), |a|,|b| <= 2^20" }
     fn eq_full(g) { equality_whole_turns::<RgbHue<f32>, G>(g, 1048576.0, 5900) }
